@@ -267,3 +267,16 @@ Fixpoint spec_vars_ok (dfs : dimfuncs) (vs vs' : list var) : bool :=
   | _, _ => false
   end.
 Definition spec_file_ok (dfs : dimfuncs) (f r : file) : bool := spec_vars_ok dfs (fvars f) (fvars r).
+
+(* ---- integrality (the value class of integer dtypes) --------------------------------- *)
+Definition q_int (q : Q) : Prop := exists z : Z, q == inject_Z z.
+Definition cell_int (c : cell) : Prop := match c with Some q => q_int q | None => True end.
+Definition arr_int (a : farr cell) : Prop := forall i, cell_int (at_ a i).
+(* functions under which an integer variable stays integer-valued (numpy keeps an integer dtype):
+   sum prod min max, diff, sub-sampling, convolution with an integer kernel *)
+Definition int_preserving (fd : fdesc) : Prop :=
+  match fd with
+  | RSum | RProd | RMin | RMax | FDiff | FSub _ => True
+  | FConv _ ker => Forall q_int ker
+  | _ => False
+  end.
